@@ -126,7 +126,8 @@ class Aggregate(list):
             predicate: Callable[[int], bool],
         ) -> None:
             for mutex in mutexes:
-                count = sum([kwargs.get(m, None) is not None for m in mutex])
+                # An empty string is no value (``Types.String`` converts it to None)
+                count = sum([kwargs.get(m, None) not in (None, "") for m in mutex])
                 if not predicate(count):
                     kwargs_ = ", ".join(
                         ["{}={}".format(m, kwargs.get(m, None)) for m in mutex]
